@@ -124,6 +124,7 @@ class Op:
         self.name, self.pt, self.dn, self.n = name, pt, dn, n
         self.arith, self.atol, self.inplace, self.kind = arith, atol, inplace, kind
         self.raises_like_torch, self.post, self.dtype = raises_like_torch, post, dtype
+        self.wants_recipes = False      # dn(D, args, recipes): the oracle also needs the operands' recipes
 
 
 OPS: Dict[str, Op] = {}
@@ -295,6 +296,12 @@ def _project_pt(T, a):
     q = a[0]
     if len(a) > 1 and a[1] == "alias":      # the tensor's own paxes/vaxes (exercises the freshen path)
         return T[0].project(T[0].paxes, T[0].vaxes)
+    if len(a) > 1 and isinstance(a[1], dict):
+        # the target pattern is written with (some of) the tensor's OWN PhysicalAxis objects, in any arrangement:
+        # a[1]["share"][m] = index into T[0].paxes naming target pool entry m (None: a fresh axis)
+        paxes = _shared_paxes(q["pool"], [[0, x] if x is not None else None for x in a[1]["share"]], T[:1])
+        vaxes = tuple(G.build_axis(x, paxes) for x in q["vaxes"])
+        return T[0].project(paxes, vaxes)
     paxes = tuple(PhysicalAxis(n) for n in q["pool"])
     vaxes = tuple(G.build_axis(x, paxes) for x in q["vaxes"])
     return T[0].project(paxes, vaxes)
@@ -312,6 +319,122 @@ def _project_dn(D, a):
 
 
 op("project", _project_pt, _project_dn, kind="tensor")
+
+
+# --- operands that SHARE PhysicalAxis objects (renaming apart).  PhysicalAxis objects are names that are local to one
+# tensor; every view (T, t, transpose, permute, flatten, unsqueeze, expand, ...) and every elementwise map (abs, exp, ...)
+# returns a tensor written with its argument's own axis objects, so operands / projection targets that mention the same
+# objects in a different arrangement arise natively (t.add(t.T), t.project(t.T.paxes, t.T.vaxes), where(t, c, t.T.abs())).
+# The denotation of a tensor does not depend on how its axes are named: the oracle is the ordinary dense one.
+def _shared_paxes(pool, share, prev):
+    """PhysicalAxis tuple for `pool`: entry m is prev[o].paxes[i] if share[m] == [o, i], else a fresh axis"""
+    from fggs.indices import PhysicalAxis
+    paxes = []
+    for m, n in enumerate(pool):
+        sh = share[m] if share is not None and m < len(share) else None
+        if sh is None:
+            paxes.append(PhysicalAxis(n))
+        else:
+            o, i = sh
+            if i >= len(prev[o].paxes) or prev[o].paxes[i]._numel != n:
+                raise ValueError(f"share map {share} joins axes of different sizes")
+            paxes.append(prev[o].paxes[i])
+    if len({id(k) for k in paxes}) != len(paxes):
+        raise ValueError(f"share map {share} is not injective")
+    return tuple(paxes)
+
+
+def build_pt_shared(recipe, share, prev):
+    """build_pt, but pool entry m is named by the PhysicalAxis object prev[o].paxes[i] when share[m] == [o, i]"""
+    from fggs.indices import PatternedTensor
+    G.validate(recipe)
+    paxes = _shared_paxes(recipe["pool"], share, prev)
+    vaxes = tuple(G.build_axis(x, paxes) for x in recipe["vaxes"])
+    return PatternedTensor(G.build_physical(recipe), paxes, vaxes, dec(recipe.get("default", 0)))
+
+
+def build_operands(recipes, share):
+    """share = None, or one share map per operand after the first (each referring to earlier operands)"""
+    if not share:
+        return [build_pt(r) for r in recipes]
+    T = [build_pt(recipes[0])]
+    for k, r in enumerate(recipes[1:]):
+        sh = share[k] if k < len(share) else None
+        T.append(build_pt_shared(r, sh, T) if sh else build_pt(r))
+    return T
+
+
+def _same_names_copy(t):
+    """an independent copy of t's storage that keeps t's PhysicalAxis objects (clone() renames them)"""
+    from fggs.indices import PatternedTensor
+    return PatternedTensor(t.physical.clone(), t.paxes, t.vaxes, t.default)
+
+
+# views of a tensor that reuse its axis objects; v = [name, args]
+def _view_pt(x, v):
+    n, a = v[0], v[1]
+    if n == "T": return x.T
+    if n == "t": return x.t()
+    if n == "transpose": return x.transpose(a[0], a[1])
+    if n == "permute": return x.permute(a[0])
+    if n == "T.abs": return x.T.abs()          # same names, other storage
+    raise ValueError(f"unknown view {v}")
+
+
+def _view_perm(nd, v):
+    n, a = v[0], v[1]
+    if n in ("T", "T.abs"): return list(reversed(range(nd)))
+    if n == "t":
+        if nd > 2: raise IndexError("t() of a tensor with more than 2 dimensions")
+        return list(reversed(range(nd)))
+    if n == "transpose":
+        p = list(range(nd)); p[a[0]], p[a[1]] = p[a[1]], p[a[0]]; return p
+    if n == "permute": return list(a[0])
+    raise ValueError(f"unknown view {v}")
+
+
+def _view_dn(d, v):
+    w = d.permute(_view_perm(d.ndim, v))
+    return w.abs() if v[0] == "T.abs" else w
+
+
+def _view_recipe(r, v):
+    """the recipe of the view, in gen_pt's own axis language (a permutation of the vaxes)"""
+    q = dict(r); q["vaxes"] = [r["vaxes"][i] for i in _view_perm(len(r["vaxes"]), v)]
+    return q
+
+
+def _same_shape(d, w):
+    if tuple(d.size()) != tuple(w.size()): raise IndexError("the view has another shape")
+    return w
+
+
+def _project_view_pt(T, a):
+    """t.project onto the pattern of a view of t itself (taken through nonphysical(), as sum_product does), then
+       reincarnated: must agree with t wherever the view's pattern backs an element, default elsewhere"""
+    np_ = _view_pt(T[0], a[0]).nonphysical()
+    return np_.reincarnate(T[0].project(np_.paxes, np_.vaxes)).to_dense()
+
+
+def _project_view_dn(D, a, recipes):
+    q = _view_recipe(recipes[0], a[0])
+    if shape_of(q) != shape_of(recipes[0]): raise IndexError("the view has another shape")
+    mask = G.backed_mask(q)
+    dflt = torch.tensor(dec(recipes[0].get("default", 0)), dtype=D[0].dtype)
+    return torch.where(mask, D[0], dflt)
+
+
+op("project_view", _project_view_pt, _project_view_dn, kind="tensor")
+OPS["project_view"].wants_recipes = True
+for _n, _ar, _at in (("add", True, False), ("mul", True, False), ("sub", True, False), ("div", True, False),
+                     ("logaddexp", True, True), ("maximum", False, False), ("lt", False, False), ("eq", False, False)):
+    # t.op(view(t)): the second operand mentions the first one's axis objects in another arrangement
+    op(_n + "_view", (lambda n: lambda T, a: getattr(T[0], n)(_view_pt(T[0], a[0])))(_n),
+       (lambda n: lambda D, a: getattr(torch, n)(D[0], _same_shape(D[0], _view_dn(D[0], a[0]))))(_n),
+       arith=_ar, atol=_at)
+op("stack_view", lambda T, a: __import__("fggs.indices").indices.stack([T[0], _view_pt(T[0], a[0])] + ([T[0]] if a[2] else []), a[1]),
+   lambda D, a: torch.stack([D[0], _same_shape(D[0], _view_dn(D[0], a[0]))] + ([D[0]] if a[2] else []), a[1]))
+ALIAS_VIEW_OPS = {"project_view", "stack_view"} | {n + "_view" for n in ("add", "mul", "sub", "div", "logaddexp", "maximum", "lt", "eq")}
 op("reshape", lambda T, a: T[0].reshape(*a[0]) if a[1] == "star" else T[0].reshape(a[0]),
    lambda D, a: D[0].reshape(a[0]), kind="reshape")
 op("view", lambda T, a: T[0].view(*a[0]) if a[1] == "star" else T[0].view(a[0]),
@@ -354,20 +477,21 @@ def _reshape_must(src: Tuple[int, ...], tgt: Tuple[int, ...]) -> Optional[str]:
     return "merge_adjacent" if (list(src) == s and list(tgt) == t) else "merge_adjacent+size1"
 
 
-def run_op(name: str, recipes: List[dict], args: list) -> List[Tuple[str, str]]:
-    """Run one op on freshly built operands; return list of (clause, detail) violations."""
+def run_op(name: str, recipes: List[dict], args: list, share=None) -> List[Tuple[str, str]]:
+    """Run one op on freshly built operands; return list of (clause, detail) violations.
+       share: operands after the first are written with PhysicalAxis objects of earlier operands (build_operands)."""
     from fggs import indices as I
     o = OPS[name]
     out: List[Tuple[str, str]] = []
     with typed_scope():
-        T = [build_pt(r) for r in recipes]
+        T = build_operands(recipes, share)
         D = [dense_oracle(r) for r in recipes]
         snaps = [_snapshot(t) for t in T]
         # expected
         exp_exc = None
         try:
             Dc = [d.clone() for d in D]
-            want = o.dn(Dc, args)
+            want = o.dn(Dc, args, recipes) if o.wants_recipes else o.dn(Dc, args)
         except Exception as e:  # torch rejects the input
             exp_exc = e
             want = None
@@ -376,7 +500,8 @@ def run_op(name: str, recipes: List[dict], args: list) -> List[Tuple[str, str]]:
         # observed
         Tw = T
         if o.inplace:
-            Tw = [T[0].clone()] + T[1:]
+            # (with shared axes the working copy must keep the operand's axis objects; clone() would rename them apart)
+            Tw = [_same_names_copy(T[0]) if share else T[0].clone()] + T[1:]
         try:
             res = o.pt(Tw, args)
         except I.RepInvariantError as e:
@@ -512,15 +637,45 @@ def check_case(case: dict) -> List[Tuple[str, str]]:
     if "prog" in case:
         res = run_prog(case["ops"][0], case["prog"])
     else:
-        res = [(f"{case['op']}.{cl}", det) for cl, det in run_op(case["op"], case["ops"], case.get("args", []))]
+        res = [(f"{case['op']}.{cl}", det) for cl, det in run_op(case["op"], case["ops"], case.get("args", []), case.get("share"))]
+    twin = _fresh_twin(case)
+    if twin is not None and (res or _MISMATCH[0]):
+        # The case names its operands / projection target with shared PhysicalAxis objects.  Its twin is the same case
+        # written with fresh axes, which must behave identically.  (a) Whether the operands are ill-typed is decided on
+        # the twin: a type-mismatch diagnosis that appears only under shared names is name capture, not a reason to skip.
+        # (b) A failure that the twin does not show is marked, so that it is keyed as a renaming-apart failure and cannot
+        # be confused with a (name-independent) failure class of the same exception type.
+        mm = _MISMATCH[0]
+        tw = check_case(twin)
+        tw_mm = _MISMATCH[0]
+        _MISMATCH[0] = mm if tw_mm else 0
+        if res and not tw and not tw_mm:
+            res = [(ob, ONLY_SHARED + det) for ob, det in res]
     # Operations that UNIFY their operands' axes (where, project) are only defined on operands of one index type;
     # when the library itself diagnoses a type mismatch there, the case is outside the property ("well-typed").
     # The elementwise binary operations anti-unify instead and must work on any same-shape operands: never skipped.
-    unifying = ("where", "project")
+    unifying = ("where", "project", "project_view")
     names = [case.get("op")] + [st[0] for st in case.get("prog", [])]
     if _MISMATCH[0] and any(n in unifying for n in names if n):
         return []
     return res
+
+
+ONLY_SHARED = "[only when the operands share PhysicalAxis objects; the same case with fresh axes passes] "
+
+
+def _fresh_twin(case: dict) -> Optional[dict]:
+    """the same case with every shared PhysicalAxis replaced by a fresh one (None if the case shares nothing)"""
+    if "prog" in case: return None
+    if case.get("share"):
+        return {k: v for k, v in case.items() if k != "share"}
+    a = case.get("args", [])
+    if case.get("op") == "project" and len(a) > 1 and isinstance(a[1], dict):
+        return {"op": "project", "ops": case["ops"], "args": [a[0]]}
+    if case.get("op") == "project_view":
+        q = _view_recipe(case["ops"][0], a[0])
+        return {"op": "project", "ops": case["ops"], "args": [{"pool": q["pool"], "vaxes": q["vaxes"]}]}
+    return None
 
 
 def replay_case(case: dict) -> bool:
@@ -555,6 +710,9 @@ def _key(obl: str, case: dict, detail: str) -> str:
             if word.endswith("Error") or word.endswith("Exception"):
                 exc = word; break
     opn, clause = obl.split(".")[0], obl.split(".")[-1]
+    if detail.startswith(ONLY_SHARED):
+        # a failure that exists only under shared axis names: its own class, whatever the exception type
+        return obl + "|shared-axes|" + ("raised" if exc else "wrong-result")
     tags = [exc] if exc else []
     if "prog" in case:
         return obl + "|" + "|".join(tags + ["in-program"])
@@ -613,10 +771,186 @@ def _targets(shape: Tuple[int, ...], ndim_max: int = 3) -> List[List[int]]:
     return out
 
 
+def _share_maps(pool_t, pool_s, cap: Optional[int] = None) -> List[List[Optional[int]]]:
+    """all non-empty injective partial maps {pool entry of the target -> equally sized pool entry of the source}
+       (lists; None = fresh axis), the most-sharing and in-order ones first; cap: the first one plus an even spread"""
+    out: List[List[Optional[int]]] = []
+
+    def rec(m, cur, used):
+        if m == len(pool_t):
+            if any(x is not None for x in cur): out.append(list(cur))
+            return
+        rec(m + 1, cur + [None], used)
+        for i, n in enumerate(pool_s):
+            if i not in used and n == pool_t[m] and n != 0:
+                rec(m + 1, cur + [i], used | {i})
+    rec(0, [], frozenset())
+    out.sort(key=lambda sm: (-sum(x is not None for x in sm), [99 if x is None else x for x in sm]))
+    if cap is not None and len(out) > cap:
+        idx = sorted({0} | {round(k * (len(out) - 1) / (cap - 1)) for k in range(cap)}) if cap > 1 else [0]
+        out = [out[i] for i in idx]
+    return out
+
+
+def _renamings(pat) -> List[dict]:
+    """the patterns obtained from `pat` by renaming its pool entries with a permutation tau (entry i becomes entry
+       tau[i]; the pool is reordered accordingly).  All of them denote the same set of backed elements."""
+    n = len(pat["pool"])
+    res = []
+
+    def ren(a, tau):
+        if a[0] == "P": return ["P", tau[a[1]]]
+        if a[0] == "*": return ["*", [ren(f, tau) for f in a[1]]]
+        return ["+", a[1], ren(a[2], tau), a[3]]
+    for tau in itertools.permutations(range(n)):
+        pool2 = [0] * n
+        for i in range(n): pool2[tau[i]] = pat["pool"][i]
+        res.append({"pool": pool2, "vaxes": [ren(a, tau) for a in pat["vaxes"]], "storage": pat.get("storage", "contig")})
+    return res
+
+
+def _distinct_data(r, rng: random.Random):
+    """pairwise distinct finite data (a misplaced element cannot go unnoticed); bool / int64 recipes are left alone"""
+    if r.get("dtype", "float64") not in ("float64", "float32"): return r
+    n = len(r["data"])
+    r = dict(r)
+    r["data"] = rng.sample(G._FINITE, n) if n <= len(G._FINITE) else [0.125 * (k + 41) for k in range(n)]
+    return r
+
+
+def _share_arg(sm, o=0):
+    return [[o, x] if x is not None else None for x in sm]
+
+
+def gen_alias(unit: dict):
+    """operands and projection targets that mention the same PhysicalAxis objects (see build_operands)"""
+    tier, seed = unit["tier"], unit["seed"]
+    th = tier == "thorough"
+    sa, sb = tuple(unit["shape"]), tuple(unit.get("shape2", unit["shape"]))
+    rng = _rng(seed, f"alias:{sa}:{sb}")
+    bc = sa != sb
+    nz = lambda pp: [p for p in pp if 0 not in p["pool"]]       # zero-size axes: known finding, not mixed in here
+    pa, pb = nz(patterns_for_shape(sa, tier)), nz(patterns_for_shape(sb, tier))
+    stride = unit.get("stride", 1)
+    if th: stride = max(stride, (len(pa) * len(pb)) // 1200)      # thorough: <= ~1200 (p, q) pattern pairs per unit
+    cap = 8 if th else 3
+    others = [0.0, 1.0, -inf, inf, 2.5, nan]
+    ident = [("add", 0.0), ("mul", 1.0), ("sub", 0.0), ("div", 1.0), ("logaddexp", -inf), ("maximum", -inf)]
+    cmpn = ("lt", "le", "gt", "ge", "eq")
+    nd = len(sa)
+    fa = [_distinct_data(fill_data(p, rng, dtype="float64", default=DEFAULTS7[i % 7]), rng) for i, p in enumerate(pa)]
+    n = 0
+    for i, p in enumerate(pa):
+        if i % unit.get("parts", 1) != unit.get("part", 0): continue
+        r = fa[i]
+        # candidates for the other operand / the projection target: every renaming of p itself (the patterns of its
+        # own permuted views, products taken in another order, ...) and every pattern of the set with a common type
+        cands = [] if bc else [(q, True) for q in _renamings(p)]
+        cands += [(q, False) for j, q in enumerate(pb) if G.compatible(p, q, broadcast=bc) and (i * 7 + j) % stride == 0]
+        for ci, (q, isren) in enumerate(cands):
+            maps = _share_maps(q["pool"], p["pool"], None if (isren and len(q["pool"]) <= 2) else cap)
+            if not maps: continue
+            n += 1
+            rq = _distinct_data(fill_data(q, rng, dtype="float64"), rng)
+            bq = fill_data(q, rng, dtype="bool")
+            br = fill_data(p, rng, dtype="bool")
+            for mi, sm in enumerate(maps):
+                k = i + ci + mi
+                if not bc:
+                    # -- project onto a target written with the tensor's own axis objects
+                    for dflt in ((r["default"], 0.0) if mi == 0 else (r["default"],)):
+                        r1 = dict(r); r1["default"] = dflt
+                        yield {"op": "project", "ops": [r1], "args": [{"pool": q["pool"], "vaxes": q["vaxes"]}, {"share": sm}]}
+                        if r.get("storage", "contig") != "contig" or th:
+                            r2 = dict(r1); r2["dtype"] = "float32"
+                            yield {"op": "project", "ops": [r2], "args": [{"pool": q["pool"], "vaxes": q["vaxes"]}, {"share": sm}]}
+                share = [_share_arg(sm)]
+                x = others[k % 6]; y = others[(3 * i + ci + 2 * mi + 1) % 6]
+                # -- binary ops: the second operand is named with the first one's axes
+                for oi, (name, idv) in enumerate(ident):
+                    dps = [(idv, idv), (idv, x), (x, idv), (x, y)]
+                    for da, db in ([dps[(k + oi) % 4], dps[(k + oi + 2) % 4]] if th else [dps[(k + oi) % 4]]):
+                        ra = dict(r); ra["default"] = enc(da)
+                        rb = dict(rq); rb["default"] = enc(db)
+                        yield {"op": name, "ops": [ra, rb], "args": [], "share": share}
+                        if th or (k + oi) % 3 == 0:          # ... and the other way round
+                            smi = [None] * len(p["pool"])
+                            for m, v in enumerate(sm):
+                                if v is not None: smi[v] = m
+                            yield {"op": name, "ops": [rb, ra], "args": [], "share": [_share_arg(smi)]}
+                ra = dict(r); ra["default"] = enc(x)
+                rb = dict(rq); rb["default"] = enc(y)
+                yield {"op": ["__add__", "__mul__", "__sub__", "__truediv__"][k % 4], "ops": [ra, rb], "args": [], "share": share}
+                for name in (cmpn if th else (cmpn[k % 5],)):
+                    yield {"op": name, "ops": [ra, rb], "args": [], "share": share}
+                if sa == sb or len(sb) <= len(sa) and all(b in (1, a) for a, b in zip(reversed(sa), reversed(sb))):
+                    yield {"op": ["__imul__tensor", "__itruediv__tensor"][k % 2], "ops": [ra, rb], "args": [], "share": share}
+                b1 = dict(br); b1["default"] = bool(k % 2)
+                b2 = dict(bq); b2["default"] = bool((k // 2) % 2)
+                yield {"op": ["logical_and", "logical_or"][k % 2], "ops": [b1, b2], "args": [], "share": share}
+                # -- copy_ from a source named with self's axes
+                yield {"op": "copy_", "ops": [ra, rb], "args": [], "share": share}
+                if bc:
+                    if len(sa) <= len(sb) and all(a in (1, b) for a, b in zip(reversed(sa), reversed(sb))):
+                        yield {"op": "expand_as", "ops": [ra, rb], "args": [], "share": share}
+                    continue
+                # -- stack of tensors named with each other's axes (equal defaults, not NaN)
+                dflt = r["default"] if dec(r["default"]) == dec(r["default"]) else 2.5
+                ri = dict(r); ri["default"] = dflt
+                rj = dict(rq); rj["default"] = dflt
+                yield {"op": "stack", "ops": [ri, rj], "args": [k % (nd + 1)], "share": share}
+                q3, _ = cands[(ci + 1 + mi) % len(cands)]
+                m3 = _share_maps(q3["pool"], q["pool"], 2)
+                m3b = _share_maps(q3["pool"], p["pool"], 2)
+                r3 = _distinct_data(fill_data(q3, rng, dtype="float64"), rng); r3["default"] = dflt
+                sh3 = _share_arg(m3[-1], 1) if (m3 and k % 2) else (_share_arg(m3b[0], 0) if m3b else None)
+                yield {"op": "stack", "ops": [ri, rj, r3], "args": [(k + 1) % (nd + 1)], "share": [share[0], sh3]}
+                # -- where(t, c, u): c named with t's axes; u named with t's or c's
+                for cd in ((False, True) if (th or mi == 0) else (bool(k % 2),)):
+                    rc = dict(bq); rc["default"] = cd
+                    ru = dict(r3); ru["default"] = enc(y)
+                    yield {"op": "where", "ops": [ra, rc, ru], "args": [], "share": [share[0], sh3]}
+                    yield {"op": "where", "ops": [ra, rc, dict(rb, default=enc(others[(k + 2) % 6]))], "args": [],
+                           "share": [None, _share_arg(sm, 0)] if k % 2 else [share[0], _share_arg([m if v is not None else None for m, v in enumerate(sm)], 1)]}
+        # -- the library's own views of the tensor (they keep its axis objects)
+        views = [["T", []], ["T.abs", []]] + ([["t", []]] if nd <= 2 else []) \
+            + [["transpose", [d0, d1]] for d0 in range(nd) for d1 in range(d0 + 1, nd)] \
+            + ([["permute", [pm]] for pm in _perms(nd) if pm != list(range(nd))] if nd >= 3 else [])
+        if bc: views = []
+        for vi, v in enumerate(views):
+            try:
+                qv = _view_recipe(r, v)
+            except IndexError:
+                continue
+            if shape_of(qv) != sa: continue
+            for dflt in (r["default"], 0.0):
+                r1 = dict(r); r1["default"] = dflt
+                if v[0] != "T.abs" and G.compatible(r, qv):
+                    yield {"op": "project_view", "ops": [r1], "args": [v]}
+                for name in ("add", "mul", "sub", "div", "logaddexp", "maximum", "lt", "eq"):
+                    yield {"op": name + "_view", "ops": [r1], "args": [v]}
+                if dec(dflt) == dec(dflt) and (v[0] != "T.abs" or dec(dflt) >= 0):      # stack requires equal defaults
+                    yield {"op": "stack_view", "ops": [r1], "args": [v, (i + vi) % (nd + 1), bool((i + vi) % 2)]}
+            # ... and after one more step (the first step may itself rename or reuse axes)
+            firsts = [["abs", []], ["T", []], ["flatten", []], ["unsqueeze", [0]], ["clone", []], ["default_to", [1.0]],
+                      ["dim_to_dense", [0]], ["dim_to_dense", [nd - 1]], ["expand", [[2] + list(sa)]], ["neg_", []],
+                      ["__getitem__", [0]], ["reshape", [[-1], "list"]], ["permute", [list(reversed(range(nd)))]]]
+            if vi == 0:
+                for st in firsts:
+                    for name in ("add_view", "maximum_view", "sub_view", "stack_view"):
+                        if name == "stack_view" and dec(r["default"]) != dec(r["default"]): continue   # NaN != NaN
+                        for v2 in ([["T", []], ["transpose", [0, nd]]] if st[0] in ("unsqueeze", "expand") else [["T", []]]):
+                            a2 = [v2] if name != "stack_view" else [v2, 0, False]
+                            yield {"prog": [list(st), [name, a2]], "ops": [r]}
+
+
 def gen_unit(unit: dict):
     """yield (group-internal) cases of a work unit, deterministically"""
     kind, tier, seed = unit["kind"], unit["tier"], unit["seed"]
     th = tier == "thorough"
+    if kind == "alias":
+        yield from gen_alias(unit)
+        return
     if kind in ("unary", "struct"):
         shape = tuple(unit["shape"])
         rng = _rng(seed, f"{kind}:{shape}:{unit.get('part', 0)}")
@@ -880,7 +1214,8 @@ GROUP_OF = {"unary": "elementwise maps, scalar ops and in-place forms (default t
             "where": "where(t, c, u) with a bool condition, incl. broadcasting",
             "pairs": "project / stack / self-aliased binary ops over pairs and triples of patterns",
             "copy": "copy_ and expand_as between patterns of any two shapes",
-            "prog": "short programs (compositions of operations), denotation and wf after each step"}
+            "prog": "short programs (compositions of operations), denotation and wf after each step",
+            "alias": "renaming apart: operands / projection targets / own views that share PhysicalAxis objects (project, binary ops, in-place forms, copy_, stack, where, expand_as)"}
 
 
 def _run_unit(unit: dict) -> dict:
@@ -968,11 +1303,18 @@ def make_units(ctx: Ctx) -> List[dict]:
     for s in ([(), (2,), (3,), (4,), (2, 2), (1, 2), (2, 1), (2, 3), (6,), (1, 2, 2), (2, 1, 2), (0,), (0, 2)]
               if not th else _shapes(tier, 6)):
         U.append({"kind": "prog", "shape": list(s), "ptier": "quick"})
+    # renaming apart: every shape of the binary bound, a few more with several equally sized axes, broadcasting pairs
+    ashapes = _bshapes(bmax) + [s for s in ([(3, 3), (9,), (2, 2, 2), (8,)] if th else [(3, 3), (2, 2, 2)]) if s not in _bshapes(bmax)]
+    for s in ashapes:
+        U.append({"kind": "alias", "shape": list(s), "stride": 1 if G._prod(s) <= 4 else (2 if th else 4)})
+    for a, b in bp:
+        U.append({"kind": "alias", "shape": list(a), "shape2": list(b), "stride": 1 if th else 3})
     V = []
     for u in U:
         n = max(len(patterns_for_shape(tuple(u["shape"]), tier)), len(patterns_for_shape(tuple(u.get("shape2", u["shape"])), tier)))
         parts = 1
         if u["kind"] in ("unary", "struct", "prog") and n > 12: parts = 3 if not th else 8
+        if u["kind"] == "alias" and n > 12: parts = 4 if not th else 12
         if u["kind"] == "binary" and n > 20 and u.get("stride", 1) == 1: parts = 6 if not th else 12
         for part in range(parts):
             v = dict(u); v["parts"] = parts; v["part"] = part; V.append(v)
@@ -988,7 +1330,7 @@ def run_bounded(ctx: Ctx) -> Report:
     rep = Report(property_id="C06", level="exploration")
     units = make_units(ctx)
     # heavy units first
-    order = sorted(range(len(units)), key=lambda i: -{"prog": 5, "binary": 4, "struct": 3, "where": 3, "unary": 2, "pairs": 2, "copy": 1}[units[i]["kind"]])
+    order = sorted(range(len(units)), key=lambda i: -{"prog": 5, "binary": 4, "struct": 3, "where": 3, "unary": 2, "pairs": 2, "copy": 1, "alias": 4}[units[i]["kind"]])
     mpctx = mp.get_context("fork")
     with mpctx.Pool(max(1, ctx.jobs)) as pool:
         res_unordered = pool.map(_run_unit, [units[i] for i in order], chunksize=1)
@@ -1014,7 +1356,17 @@ def run_bounded(ctx: Ctx) -> Report:
                  "pairs": "all ordered pairs (project, stack of 2) and derived triples (stack of 3) of patterns per shape numel<=4",
                  "copy": "all pattern pairs over 9x9 shape pairs (any two shapes)",
                  "prog": ("every 31st composition of 3 steps from 35 step instances x every quick-set pattern of all shapes numel<=6" if ctx.thorough
-                          else "all compositions of 2 steps from 27 step instances x every (every 2nd if >12) pattern of 13 shapes")}[kind]
+                          else "all compositions of 2 steps from 27 step instances x every (every 2nd if >12) pattern of 13 shapes"),
+                 "alias": ("every pattern p (no zero-size axis) of the binary-bound shapes" + (" + (3,3) (9,) (2,2,2) (8,)" if ctx.thorough else " + (3,3) (2,2,2)")
+                           + " and of the broadcastable shape pairs x {every renaming of p by a permutation of its pool, "
+                           + ("every (strided beyond the pair cap)" if ctx.thorough else "every k-th (k=1 numel<=4, else 3-4)") + " well-typed pattern q} x injective partial maps "
+                           "'pool entry of q is the SAME PhysicalAxis object as an equally sized pool entry of p' ("
+                           + ("all for renamings with <=2 axes, else <=8 evenly spread incl. the most-sharing in-order one; <= ~1200 (p,q) pairs per shape pair"
+                              if ctx.thorough else "all for renamings with <=2 axes, else 3: most-sharing in-order, middle, least")
+                           + "); per (p,q,map): project of p onto q, 6 binary ops (+swapped operands), operator form, comparison, in-place mul/div, "
+                           "logical op, copy_, stack of 2 and 3, where (c and u named with t's / c's axes), expand_as; "
+                           "the library's own views T t transpose permute T.abs of every p: project onto the view's pattern, t.op(view(t)), "
+                           "stack([t, view(t)]), and the same after one of 13 first steps; distinct finite data")}[kind]
         rep.bounded.append(Bounded(
             function=f"PatternedTensor: {title}", bound=bound,
             cases=sum(r["cases"] for r in rs), distinct_nontrivial=sum(r["nontrivial"] for r in rs),
@@ -1031,6 +1383,7 @@ def run_bounded(ctx: Ctx) -> Report:
                 case = dict(f["case"]); case["_obligation"] = f["obligation"]
                 desc = " ; ".join(depict(x) for x in f["case"]["ops"])
                 what = f"{f['case'].get('op', 'prog ' + json.dumps(f['case'].get('prog')))} args={json.dumps(f['case'].get('args', []))} on {desc}"
+                if f["case"].get("share"): what += f" shared-axes={json.dumps(f['case']['share'])}"
                 rep.failures.append(Failure(obligation="PatternedTensor." + f["obligation"], what=what[:300],
                                             replay={"module": MODULE, "func": "replay_case", "case": case},
                                             detail=f["detail"][:600], key=f["key"]))
